@@ -21,6 +21,12 @@ func checkC06(c *Ctx) {
 	c.Rule("C06-R5", "PollEvent/PostEventWait/ChannelEvents: every blocking operation has a StopQ alternative; PollEvent returns nil on it")
 	c.Rule("C06-R9", "a finished screen stays finished: every close of a quit channel runs at most once (sync.Once, or behind a flag tested and set under the lock), and engage refuses to restart a screen whose fini flag is set")
 	c.Expect("C06-R9", 3)
+	c.Rule("C06-R12", "Screen calls after Fini do not panic: no channel of events is ever closed (PostEvent, PostEventWait and the resize path send on the queue; only the struct{} quit/stop channels are closed)")
+	c.Expect("C06-R12", 1)
+	c.Rule("C06-R14", "the simulation's Fini cannot be locked out: Show, Sync and SetSize wait for queue room holding the mutex, so Fini closes the quit channel (which ends that wait) before it asks for the mutex")
+	c.Expect("C06-R14", 1)
+	c.Rule("C06-R13", "input works again after Resume on both unix Tty implementations: Drain/Stop leave a read deadline of 'now' on the handle, and every successful return of Start comes after a fresh open of that handle or SetReadDeadline(zero time); likewise for the non-blocking mode Drain switches on")
+	c.Expect("C06-R13", 4)
 	c.Rule("C06-R11", "after Fini PollEvent returns nil even if events are still queued: the stop channel is tested alone before the select that also receives from the queue (two ready cases are chosen between at random)")
 	c.Expect("C06-R11", 1)
 	c.Rule("C06-R10", "no half-done state around the hand-over: a refused engage has stored nothing in the screen (a Resume turned down as 'already engaged' must not have replaced the stop channel the running loops listen to), and Fini marks the screen finished before its teardown releases the mutex")
@@ -61,6 +67,9 @@ func checkC06(c *Ctx) {
 		c06Reengage(c, p)
 		c06DrawProgress(c, p)
 		c06FinishedStays(c, p)
+		checkEventQueuesNeverClosed(c, p, "C06-R12")
+		checkTtyRestart(c, p, "C06-R13")
+		checkFiniNotLockedOut(c, p, "C06-R14", "simscreen")
 		for _, f := range []string{"tty", "ti"} {
 			ws := []string{}
 			for _, fn := range p.modFns {
